@@ -138,6 +138,12 @@ func init() {
 			f := fs[r.intn(4)]
 			c.do(fmt.Sprintf("ts.text rt %s %d", f, t))
 			c.count("rt")
+			if i%3 == 0 { // the same instant in every format, back to back (a segment boundary shared by two documents)
+				for _, g := range fs {
+					c.do(fmt.Sprintf("ts.text rt %s %d", g, t))
+					c.count("rt-all-formats")
+				}
+			}
 			if i%4 == 0 {
 				pf := fs[r.intn(3)]
 				s := fmtF(fs[r.intn(4)], time.Duration(t))
